@@ -73,7 +73,22 @@ def ev(src: str):
     return N.build({"k": "expr", "src": src})
 
 
+SCALAR_SUBST = [("schema.date", "datetime(2021, 5, 6, 7, 8, 9)"), ("schema.date", "date(2021, 5, 6)"), ("schema.datetime", "datetime(2021, 5, 6, 7, 8, 9)"),
+                ("schema.dict({'d': schema.date, 'n': schema.int})", "{'d': datetime(2021, 5, 6, 7, 8, 9)}"), ("schema.list(schema.date)", "[datetime(2021, 5, 6, 1, 1)]"),
+                ("schema.any(schema.date, schema.str)", "datetime(2021, 5, 6, 7, 8, 9)"),
+                ("schema.float.precision(2)", "1e308"), ("schema.float(1.0).precision(2)", "1e308"), ("schema.float(1e308).precision(2)", "1e308"),
+                ("schema.dict({'f': schema.float(1.0).precision(2), ...: ...})", "{'f': 1e308}"), ("schema.list([..., schema.float(1.0).precision(1), ...])", "[1e308]"),
+                ("schema.any(schema.float(1.0).precision(2), schema.none)", "1e308"), ("schema.float.precision(1)", "float('inf')"),
+                ("schema.int", "True"), ("schema.int", "0"), ("schema.str", "''"), ("schema.bool", "False"), ("schema.none", "None"),
+                ("schema.str.regex('[A-Z]{2}-[0-9]{2}')", "'AB-12'"), ("schema.bytes", "b''"), ("schema.int.min(0).max(0)", "0"),
+                ("schema.dict({'id': schema.int.min(1), optional('name'): schema.str.len(1, 10), ...: ...})", "{'id': 1}"),
+                ("schema.dict({'o': schema.dict({'id': schema.int, optional('t'): schema.int.min(5), ...: ...})})", "{'o': {'id': 3}}"),
+                ("schema.list(schema.dict({'id': schema.int, optional('t'): schema.str.len(2), ...: ...}))", "[{'id': 1}, {'id': 2, 't': 'ab'}]")]
+
+
 def substitution_cases():
+    for s, v in SCALAR_SUBST:
+        yield s, v
     for s in LIST_SCHEMAS:
         for v in LIST_VALUES + SCALAR_VALUES[:4]:
             yield s, v
